@@ -532,9 +532,13 @@ func (s *SSH) iosAnswer(l, output string) {
 			off = len(echo)
 		}
 		s.emit(echo[:off] + b + echo[off:] + "\r\n" + crlf(output) + s.prompt())
+	case "behind-output-tight":
+		// as behind-output, but the line end of the last output line is the
+		// first of the banner's three line ends
+		s.emit(echo + "\r\n" + strings.TrimSuffix(crlf(output), "\r\n") + b + s.prompt())
 	case "behind-output":
 		// the banner follows the command's output directly, in front of the prompt
-		s.emit(echo + "\r\n" + crlf(output) + b + "\r\n" + s.prompt())
+		s.emit(echo + "\r\n" + crlf(output) + b + s.prompt())
 	default: // after
 		post := b
 		s.emit(echo + "\r\n" + crlf(output) + s.prompt())
